@@ -266,6 +266,35 @@ func enumForm(f form, yield func(sem.Stmt)) {
 	rec(0)
 }
 
+// enumFormReduced yields a reduced grid of a form: the full domain of its widest non-register slot (boundary
+// immediates, memory shapes, absolute addresses) with one register per register slot, rotating with *k.
+func enumFormReduced(f form, k *int, yield func(sem.Stmt)) {
+	doms := make([][]sem.Operand, len(f.Slots))
+	wide := -1
+	for i, sl := range f.Slots {
+		doms[i] = slotDomain(sl, true)
+		if len(doms[i]) > 8 || sl == "moffs" {
+			wide = i
+		}
+	}
+	n := 1
+	if wide >= 0 {
+		n = len(doms[wide])
+	}
+	for j := 0; j < n; j++ {
+		ops := make([]sem.Operand, len(f.Slots))
+		for i := range f.Slots {
+			if i == wide {
+				ops[i] = doms[i][j]
+			} else {
+				ops[i] = doms[i][(*k+i)%len(doms[i])]
+			}
+		}
+		*k++
+		yield(sem.Stmt{Mn: f.Mn, Ops: ops})
+	}
+}
+
 func drawForm(t *rapid.T, f form) sem.Stmt {
 	ops := make([]sem.Operand, len(f.Slots))
 	for i, s := range f.Slots {
